@@ -32,6 +32,8 @@ type Obligation struct {
 	TryInt   bool // also try the integer-lifted encoding for a pure BV obligation
 	NoLower  bool
 	LiftNote string
+	InvPairs [][2]*Term
+	InvMod   *big.Int
 	Harness string
 	Case    string
 
@@ -91,6 +93,9 @@ type HarnessRun struct {
 
 	catches    []*catchRec
 	pruneForks bool
+	noMerge    bool
+	invPairs   [][2]*Term
+	invMod     *big.Int
 	symN       int
 	inputs     []inputRec // fresh inputs in creation order, for replay
 	notes      []string
@@ -131,6 +136,8 @@ func (h *HarnessRun) addUnwind(e *Engine, s *State, pos string) {
 }
 
 func (h *HarnessRun) add(ob *Obligation) {
+	ob.InvPairs = append([][2]*Term{}, h.invPairs...)
+	ob.InvMod = h.invMod
 	ob.Harness = h.Name
 	ob.Case = h.Case
 	ob.Name = fmt.Sprintf("%s[%s]/%s#%d@%s", h.Name, h.Case, ob.Kind, len(h.obs), ob.Pos)
@@ -421,6 +428,10 @@ func init() {
 			e.H.notes = append(e.H.notes, msg)
 			return nil
 		},
+		"vNoMerge": func(e *Engine, fr *Frame, s *State, f *ssa.Function, args []Value, pos string) Value {
+			e.H.noMerge = args[0].(*Term).IsTrue()
+			return nil
+		},
 		"vPrune": func(e *Engine, fr *Frame, s *State, f *ssa.Function, args []Value, pos string) Value {
 			e.H.pruneForks = args[0].(*Term).IsTrue()
 			return nil
@@ -577,6 +588,35 @@ func init() {
 			}
 			return e.st.BV2Nat(ts[0])
 		},
+		"vInversePair": func(e *Engine, fr *Frame, s *State, f *ssa.Function, args []Value, pos string) Value {
+			z, w := args[0].(*Term), args[1].(*Term)
+			if z.Op != OSym || w.Op != OSym {
+				panic(unsupported("vInversePair needs two integer symbols at %s", pos))
+			}
+			m := args[2].(*Term)
+			if !m.IsConst() {
+				panic(unsupported("vInversePair modulus must be constant"))
+			}
+			e.H.invMod = m.Val
+			e.H.invPairs = append(e.H.invPairs, [2]*Term{z, w})
+			e.H.assumes = append(e.H.assumes, e.st.Implies(s.pc, e.st.Eq(e.st.IMod(e.st.IMul(z, w), m), e.st.Inti(1))))
+			return nil
+		},
+		"vZbytes": func(e *Engine, fr *Frame, s *State, f *ssa.Function, args []Value, pos string) Value {
+			z := args[0].(*Term)
+			n := constInt(args[1], "byte count")
+			bv := e.st.Int2BV(z, 8*n)
+			arr := types.NewArray(types.Typ[types.Uint8], int64(n))
+			o := e.allocTyped("zbytes", ObjHarness, arr)
+			o.owner = s
+			s.born = append(s.born, o)
+			cells := s.cellsW(o)
+			for k := 0; k < n; k++ {
+				cells[k] = e.st.Extract(bv, 8*k+7, 8*k)
+			}
+			ln := e.st.BVu(uint64(n), e.intw)
+			return &SliceV{P: ptrTo(o, 0, e.st.True()), Len: ln, Cap: ln}
+		},
 		"vZfresh": func(e *Engine, fr *Frame, s *State, f *ssa.Function, args []Value, pos string) Value {
 			return e.st.Sym(constStr(args[0], "name"), IntSort)
 		},
@@ -613,6 +653,9 @@ func init() {
 		},
 		"vZ.IsConst": func(e *Engine, fr *Frame, s *State, f *ssa.Function, args []Value, pos string) Value {
 			return e.st.Bool(args[0].(*Term).IsConst())
+		},
+		"vZ.IsSym": func(e *Engine, fr *Frame, s *State, f *ssa.Function, args []Value, pos string) Value {
+			return e.st.Bool(args[0].(*Term).Op == OSym)
 		},
 		"vZite": func(e *Engine, fr *Frame, s *State, f *ssa.Function, args []Value, pos string) Value {
 			return e.st.Ite(args[0].(*Term), args[1].(*Term), args[2].(*Term))
